@@ -21,6 +21,8 @@ Oracle: the payload that was written.
 from __future__ import annotations
 
 import io
+import os
+import sys
 import itertools
 import traceback
 import zlib
@@ -205,6 +207,7 @@ def impl_decode(f: str, enc: bytes, o: Dict[str, Any]):
     """The decoder function called directly; through PDFStream.decode when the encoding needs filter parameters."""
     fp = filter_parms(f, o)
     if fp is None:
+        _remember({"family": "direct", "filter": f, "encoded": enc, "options": {}})
         return guarded(IMPL_DECODE[f], enc)
     return impl_stage(f, enc, fp)
 
@@ -216,11 +219,100 @@ def _exc_name(e: BaseException) -> str:
     return f"{type(e).__name__}@{tb[-1].name if tb else '?'}"
 
 
+class WorkBudgetExceeded(BaseException):
+    """Raised from the monitoring callback inside the decoder under test (BaseException: no 'except Exception' swallows it)."""
+
+
+class ShardStop(Exception):
+    """The shard has reported VIOLATION_CAP violations: stop working on a tree that is failing anyway."""
+
+
+VIOLATION_CAP = 40
+MAXTASKS = 4  # worker processes are recycled so that state a defective decoder leaks into the process cannot pile up for long
+
+
+class _Budget:
+    """Counted work budget for the decoders: branch/jump/call events (sys.monitoring) inside the decoder code objects of
+    pdfminer (lzw, runlength, ascii85, predictors, PDFStream.decode).  No timers."""
+
+    def __init__(self):
+        self.count = 0
+        self.limit = 1 << 62
+        self.installed = False
+
+    def install(self):
+        if self.installed:
+            return
+        self.installed = True
+        mon = getattr(sys, "monitoring", None)
+        if mon is None or os.environ.get("C03_NO_BUDGET") == "1":
+            return
+        import pdfminer.ascii85 as m_a85
+        import pdfminer.lzw as m_lzw
+        import pdfminer.pdftypes as m_types
+        import pdfminer.runlength as m_rl
+        import pdfminer.utils as m_utils
+
+        tool = 3
+        try:
+            mon.use_tool_id(tool, "c03-work-budget")
+        except ValueError:
+            return
+        codes = []
+
+        def walk(co):
+            codes.append(co)
+            for c in co.co_consts:
+                if hasattr(c, "co_code"):
+                    walk(c)
+
+        fns = [m_lzw.LZWDecoder.readbits, m_lzw.LZWDecoder.feed, m_lzw.LZWDecoder.run, m_lzw.lzwdecode, m_rl.rldecode,
+               m_a85.ascii85decode, m_a85.asciihexdecode, m_utils.apply_png_predictor, m_utils.apply_tiff_predictor,
+               m_utils.paeth_predictor, m_types.PDFStream.decode, m_types.decompress_corrupted]
+        fns += [v for k, v in vars(m_a85).items() if callable(v) and getattr(v, "__module__", "") == m_a85.__name__ and hasattr(v, "__code__")]
+        seen = set()
+        for f in fns:
+            co = getattr(f, "__code__", None)
+            if co is not None and co not in seen:
+                seen.add(co)
+                walk(co)
+        ev = mon.events.JUMP | mon.events.BRANCH | mon.events.PY_START
+        for co in codes:
+            mon.set_local_events(tool, co, ev)
+
+        def tick(*_a):
+            self.count += 1
+            if self.count > self.limit:
+                self.limit = 1 << 62  # raise once
+                raise WorkBudgetExceeded(f"more than the budgeted decoder events")
+
+        mon.register_callback(tool, mon.events.JUMP, tick)
+        mon.register_callback(tool, mon.events.BRANCH, tick)
+        mon.register_callback(tool, mon.events.PY_START, tick)
+
+    def arm(self, nbytes: int):
+        """Allow work proportional to the bytes involved: 400 events per byte + 200000 (measured need: < 40 per byte)."""
+        self.install()
+        self.count = 0
+        self.limit = 400 * nbytes + 200000
+
+    def disarm(self):
+        self.limit = 1 << 62
+
+
+BUDGET = _Budget()
+
+
 def guarded(fn, *a):
+    BUDGET.arm(sum(len(x) for x in a if isinstance(x, (bytes, bytearray))) + getattr(fn, "_nbytes", 0))
     try:
         return ("ok", fn(*a))
+    except WorkBudgetExceeded:
+        return ("exc", "nontermination:work budget exceeded")
     except Exception as e:  # noqa
         return ("exc", _exc_name(e))
+    finally:
+        BUDGET.disarm()
 
 
 # --------------------------------------------------------------------------- chain encoding
@@ -452,34 +544,50 @@ class _CountingParser(PDFParser):
         return PDFParser.fillbuf(self)
 
 
-def read_streams(doc: bytes, nums: Sequence[int], bufsiz: int = 4096) -> List[Any]:
+def open_doc(doc: bytes, bufsiz: int = 4096):
+    """-> PDFDocument, or ('exc', name) when the file cannot be opened."""
     p = _CountingParser(io.BytesIO(doc))
     p.BUFSIZ = bufsiz
     p.nfill = 0
     p.budget = 16 * len(doc) + 100000
     try:
-        d = PDFDocument(p)
+        return PDFDocument(p)
     except Exception as e:  # noqa
-        return [("exc", "open:" + _exc_name(e))] * len(nums)
-    out = []
-    for n in nums:
-        try:
-            o = d.getobj(n)
-            if not isinstance(o, PDFStream):
-                out.append(("notstream", type(o).__name__))
-                continue
-            out.append(("ok", o.get_data()))
-        except Exception as e:  # noqa
-            out.append(("exc", _exc_name(e)))
-    return out
+        return ("exc", "open:" + _exc_name(e))
+
+
+def read_one(d, n: int, hint: int = 0):
+    if isinstance(d, tuple):
+        return d
+    BUDGET.arm(hint)
+    try:
+        o = d.getobj(n)
+        if not isinstance(o, PDFStream):
+            return ("notstream", type(o).__name__)
+        BUDGET.arm(hint + len(o.rawdata or b""))
+        return ("ok", o.get_data())
+    except WorkBudgetExceeded:
+        return ("exc", "nontermination:work budget exceeded")
+    except Exception as e:  # noqa
+        return ("exc", _exc_name(e))
+    finally:
+        BUDGET.disarm()
+
+
+def read_streams(doc: bytes, nums: Sequence[int], bufsiz: int = 4096) -> List[Any]:
+    d = open_doc(doc, bufsiz)
+    return [read_one(d, n) for n in nums]
 
 
 def impl_stage(f: str, inp: bytes, parms: Optional[Dict[str, Any]]):
     """One decode stage through the real PDFStream.decode (no parser involved)."""
+    _remember({"family": "stage", "filter": f, "encoded": inp, "parms": dict(parms) if parms else None})
     attrs: Dict[str, Any] = {"Filter": LIT(FULL[f])}
     if parms is not None:
         attrs["DecodeParms"] = dict(parms)
-    return guarded(lambda: PDFStream(attrs, inp).get_data())
+    fn = lambda: PDFStream(attrs, inp).get_data()  # noqa: E731
+    fn._nbytes = len(inp)  # type: ignore[attr-defined]
+    return guarded(fn)
 
 
 # --------------------------------------------------------------------------- diagnosis
@@ -575,7 +683,10 @@ META = {
         "(splits 'stream' CR|LF) and 1; paeth: all (left, above, upper-left) triples over 8 boundary values, 1 and 2 colours; png: 42 geometries (colours "
         "1,3,4 x columns 1,2,3,5,8,9,16 x bits 8,1) plus pixel sizes that are not 1, 3 or 4 whole bytes (quick: 1-bit colours 2,9,12,17 x columns "
         "1,3,8 and 8-bit colours 2; thorough: 1-bit colours 2..25 incl. 5,7,8,10,15,16,23,24,25 x columns 1,2,3,5,8,9 and 8-bit colours 2,5) x all 155 assignments of row filter types 0-4 to <=3 rows, directly and through a "
-        "Flate (thorough: also LZW) stream; tiff: colours 1-4 x columns 1,2,3,5,8,16 x 1,2,3,4,7 rows (and 2x2, 3x3, 4x4 geometries inside chains).  LZW clear-table codes: at the start only, every 64 codes, before EOD, every 255 codes "
+        "Flate (thorough: also LZW) stream; tiff: colours 1-4 x columns 1,2,3,5,8,16 x 1,2,3,4,7 rows (and 2x2, 3x3, 4x4 geometries inside chains).  history: for every filter and option set, every ordered pair (p, q) of 5 payloads decoded as p, q, p in one process (function "
+        "and PDFStream), each result must equal what the datum gives alone; a85tail: for final groups of 1-4 bytes every reachable last "
+        "ASCII85 digit (45/85/85/85, incl. '>' and '<') x 3 prefixes x EOD spellings ~>, ~>LF, LF~> (and the lenient forms '~ >', '~', none that "
+        "ascii85decode documents).  LZW clear-table codes: at the start only, every 64 codes, before EOD, every 255 codes "
         "(just after the switch to 10 bits), and when the table is full (6000-byte payload, direct family in both tiers).  LZW data is written with "
         "EarlyChange 1 (implicit and explicit) and EarlyChange 0 in the direct, chain and container families.  thorough adds a 6000-byte and a "
         "70 kB payload (the latter through chains of Flate/LZW/RunLength only and three container chains).  A case = one encoded datum or stream "
@@ -585,6 +696,9 @@ META = {
     ),
     "bound": {k: str(v) for k, v in BOUNDS.items()},
     "assumptions": [
+        "decoder work is bounded by a counted budget of sys.monitoring branch/jump/call events inside the decoder code objects (400 per byte + 200000); "
+        "exceeding it is reported as C03/nontermination; a shard stops after 40 violations (recorded in caps_hit, the run is then not called exhaustive); "
+        "a stored case that does not fail alone in a fresh interpreter is stored with the prelude of decoder calls that makes it fail (state carried over)",
         "the reference encoders are correct: each encoded datum is decoded back by an independent spec-literal decoder (or zlib/base64/binascii) inside the run, a mismatch aborts the run",
         "the abbreviated dictionary keys /F and /DP are not generated: ISO 32000-1 allows them only in inline images (in a stream dictionary /F is a file specification)",
         "encoded data always carries its EOD marker ('>', '~>', 128, 257); streams always carry a correct Length",
@@ -618,14 +732,79 @@ def shards(tier):
     for gi in range(len(png_geoms(tier))):
         out.append(("png", gi))
     out.append(("tiff",))
+    for f in FILTERS:
+        out.append(("history", f))
+    for n in (1, 2, 3, 4):
+        out.append(("a85tail", n))
     for k in range(len(PAETH_VALUES)):
         out.append(("paeth", k))
     return out
 
 
 # ---- reporting helper
+RECENT: List[Dict[str, Any]] = []  # the last few decoder calls of this process, as replayable descriptors
+FRESH_CHECKS_PER_SHARD = 4
+
+
+def _remember(desc: Dict[str, Any]) -> None:
+    RECENT.append(desc)
+    del RECENT[:-3]
+
+
+def _fresh_reproduces(case: Dict[str, Any]) -> bool:
+    """Re-execute one stored case in a fresh interpreter (what the runner will do before it reports the violation)."""
+    import json
+    import subprocess
+    import tempfile
+
+    from mc.core import jenc
+
+    fd, path = tempfile.mkstemp(prefix="c03case_", suffix=".json", dir=tempfile.gettempdir())
+    try:
+        with os.fdopen(fd, "w") as f:
+            json.dump({"case": jenc(case)}, f)
+        core = os.path.join(os.path.dirname(os.path.dirname(os.path.abspath(__file__))), "mc", "core.py")
+        r = subprocess.run([sys.executable, core, "C03", "--replay", path], capture_output=True, text=True, env={**os.environ, "PYTHONHASHSEED": "0"})
+        return r.returncode == 1
+    finally:
+        try:
+            os.unlink(path)
+        except OSError:
+            pass
+
+
+def make_reproducible(case: Dict[str, Any], sig: str) -> Tuple[Optional[Dict[str, Any]], str]:
+    """A stored case must fail when executed alone in a fresh process.  If it does not, the failure depends on what this
+    process decoded before: find a prelude (the same datum once more, or the last decoder calls) that reproduces it."""
+    if _fresh_reproduces(case):
+        return case, sig
+    bare = {k: v for k, v in case.items() if k not in ("prelude", "signature")}
+    filt = sig.split("-decode:")[0] if "-decode:" in sig else (case.get("filter") or ">".join(case.get("chain") or []) or "stream")
+    sig2 = f"{filt}-decode:state-carried-over"
+    for prelude in ([bare], [d for d in RECENT[:-1]] + [bare], list(RECENT)):
+        c2 = {**case, "prelude": prelude, "signature": "C03/" + sig2, "cause_in_this_run": sig}
+        if _fresh_reproduces(c2):
+            return c2, sig2
+    return None, sig2 + ":not-reproduced-alone"
+
+
 def report(st, sig: str, case: Dict[str, Any], expected: bytes, observed, what: str) -> None:
-    st.violation("C03/" + sig, {**case, "signature": "C03/" + sig}, ("ok", expected), observed, what)
+    full = "C03/" + sig
+    nfresh = getattr(st, "_c03_nfresh", 0)
+    if st.viol_counts[full] < st.MAX_VIOL_PER_SIG and nfresh < FRESH_CHECKS_PER_SHARD:
+        st._c03_nfresh = nfresh + 1
+        c2, sig = make_reproducible({**case, "signature": full}, sig)
+        full = "C03/" + sig
+        if c2 is None:
+            st.viol_counts[full] += 1  # counted, but no artefact that would not reproduce
+        else:
+            st.violation(full, {**c2, "signature": full}, ("ok", expected), observed, what)
+    else:
+        st.viol_counts[full] += 1
+    n = getattr(st, "_c03_nviol", 0) + 1
+    st._c03_nviol = n
+    if n >= VIOLATION_CAP:
+        raise ShardStop()
 
 
 def _short(b, n=40):
@@ -656,7 +835,7 @@ def run_direct(shard, tier, st):
             st.case(None, nontrivial=bool(p), outcome=h64(r))
             st.traces += 1
             if r != ("ok", p):
-                sig = f"{f}-decode:" + opt_cause(f, p, o)
+                sig = f"nontermination:{f}" if (r[0] == "exc" and str(r[1]).startswith("nontermination")) else f"{f}-decode:" + opt_cause(f, p, o)
                 report(st, sig, {"family": "direct", "filter": f, "encoded": enc, "options": o, "payload": p}, p, r,
                        f"{dec.__name__ if filter_parms(f, o) is None else 'PDFStream(Filter=' + FULL[f] + ', DecodeParms=' + repr(filter_parms(f, o)) + ').get_data'}({_short(enc)}) gives {r[0]}:{_short(r[1]) if r[0]=='ok' else r[1]}, payload {_short(p)}")
     st.sample({"family": "direct", "filter": f, "payload": payloads[-1][:32], "encoded": encode(f, payloads[-1], options(f, payloads[-1])[-1])[:64]})
@@ -666,11 +845,10 @@ def run_direct(shard, tier, st):
 def judge_streams(st, db: DocB, entries: List[Dict[str, Any]], bufsizes: Sequence[int] = (4096,)) -> None:
     """entries: dicts with num, payload, chain, stages, data, container, desc.  Decodes all through one document per BUFSIZ."""
     doc = db.write()
-    nums = [e["num"] for e in entries]
-    results = [read_streams(doc, nums, b) for b in bufsizes]
+    docs = [open_doc(doc, b) for b in bufsizes]
     for i, e in enumerate(entries):
         p = e["payload"]
-        per = [res[i] for res in results]
+        per = [read_one(d, e["num"], len(p) + len(e["data"])) for d in docs]  # lazily: a failing tree stops at the violation cap
         for r in per:
             st.case(None, nontrivial=bool(p), outcome=h64(r))
             st.traces += 1
@@ -678,7 +856,7 @@ def judge_streams(st, db: DocB, entries: List[Dict[str, Any]], bufsizes: Sequenc
         if not bad:
             continue
         b, r = bad[0]
-        cause = diagnose_stages(e["stages"])
+        cause = "nontermination:" + ">".join(e["chain"]) if (r[0] == "exc" and str(r[1]).startswith("nontermination")) else diagnose_stages(e["stages"])
         if cause is None:
             cause = e.get("container_cause") or ("pipeline:" + ">".join(e["chain"]) if e["chain"] else "container:default")
             if callable(cause):
@@ -972,8 +1150,112 @@ def run_paeth(shard, tier, st):
                                payload, r, f"Paeth with left={a} above={b} upper-left={c}: apply_png_predictor gives {r!r}, expected {payload!r}")
 
 
+# ---- history: decoders must not carry state from one datum to the next
+HISTORY_PAYLOADS = ["one", "all256", "phrases700", "runs", "zeros4"]
+
+
+def run_history(shard, tier, st):
+    """Every ordered pair (p, q) of payloads, every encoder option set of the filter: decode p, q, p in this order in one
+    process, directly and through PDFStream; each result must be what the datum gives alone (its payload)."""
+    f = shard[1]
+    pls = [payload_by_name(n) for n in HISTORY_PAYLOADS]
+    opts = options(f, b"") if f in ("LZW", "RL", "Fl") else PRESETS[f]
+    st.states += 1
+    for o in opts:
+        encs = [encode(f, p, o) for p in pls]
+        for e, p in zip(encs, pls):
+            assert ref_decode(f, e, o) == p
+        for i in range(len(pls)):
+            for j in range(len(pls)):
+                st.states += 1
+                st.transitions += 1
+                for step, k in enumerate((i, j, i)):
+                    for via in ("function", "stream"):
+                        r = impl_decode(f, encs[k], o) if via == "function" else impl_stage(f, encs[k], filter_parms(f, o))
+                        st.case(None, nontrivial=True, outcome=h64(r))
+                        st.traces += 1
+                        if r != ("ok", pls[k]):
+                            if r[0] == "exc" and str(r[1]).startswith("nontermination"):
+                                sig = f"nontermination:{f}"
+                            elif impl_stage(f, encs[k], filter_parms(f, o)) != ("ok", pls[k]) and step == 0 and i == 0:
+                                sig = f"{f}-decode:" + opt_cause(f, pls[k], o)
+                            else:
+                                sig = f"{f}-decode:state-carried-over"
+                            report(st, sig, {"family": "direct", "filter": f, "encoded": encs[k], "options": o, "payload": pls[k],
+                                             "history": [HISTORY_PAYLOADS[x] for x in (i, j, i)][:step]}, pls[k], r,
+                                   f"{f}: decoding {HISTORY_PAYLOADS[k]} as step {step + 1} of the history {[HISTORY_PAYLOADS[x] for x in (i, j, i)]} ({via}) gives "
+                                   f"{r[0]}:{_short(r[1]) if r[0] == 'ok' else r[1]}, expected {_short(pls[k])}")
+    st.sample({"family": "history", "filter": f, "payloads": HISTORY_PAYLOADS, "option_sets": len(opts)})
+
+
+# ---- ASCII85 final group: every last digit, full and partial groups, EOD spellings
+A85_EODS = [("~>", b"~>", True), ("~>LF", b"~>\n", True), ("LF~>", b"\n~>", True), ("~ >", b"~ >", False), ("~", b"~", False), ("none", b"", False)]
+
+
+def _a85_tail_payloads() -> Dict[Tuple[int, int], bytes]:
+    """(number of bytes of the final group 1..4, last digit 0..84) -> smallest payload whose final group ends in that digit."""
+    found: Dict[Tuple[int, int], bytes] = {}
+    for n in (1, 2, 3, 4):
+        want = 85
+        # enumerate payloads of n bytes in numeric order of their last two bytes; the leading bytes take three patterns
+        for lead in (0x00, 0xFF, 0x5A):
+            for v in range(256 if n == 1 else 65536):
+                tail = v.to_bytes(1 if n == 1 else 2, "big")
+                p = bytes((lead,)) * (n - len(tail)) + tail
+                enc = RF.a85_encode(p)[:-2]
+                if enc == b"z":
+                    continue
+                d = enc[-1] - 33
+                if (n, d) not in found:
+                    found[(n, d)] = p
+                    want -= 1
+            if want <= 0:
+                break
+    return found
+
+
+def run_a85tail(shard, tier, st):
+    n = shard[1]
+    table = _a85_tail_payloads()
+    digits = sorted(d for (k, d) in table if k == n)
+    st.add("a85_last_digits_group%d" % n, len(digits))
+    st.states += 1
+    for d in digits:
+        tailp = table[(n, d)]
+        for prefix in (b"", b"abcd", b"\x00\x00\x00\x00wxyz"):
+            p = prefix + tailp
+            body = RF.a85_encode(p)[:-2]
+            assert body[-1] - 33 == d
+            for name, eod, conformant in A85_EODS:
+                enc = body + eod
+                if conformant:
+                    assert RF.a85_decode_ref(enc) == p
+                st.states += 1
+                st.transitions += 1
+                for via in ("function", "stream"):
+                    r = guarded(ascii85decode, enc) if via == "function" else impl_stage("A85", enc, None)
+                    st.case(None, nontrivial=True, outcome=h64(r))
+                    st.traces += 1
+                    if r != ("ok", p):
+                        sig = "A85-decode:last-digit-%s:eod=%s" % ("gt" if chr(33 + d) == ">" else "tilde-neighbour" if chr(33 + d) in "<~" else "any", name)
+                        report(st, sig, {"family": "direct", "filter": "A85", "encoded": enc, "options": {}, "payload": p}, p, r,
+                               f"ascii85decode({enc!r}) [{via}] gives {r[0]}:{_short(r[1]) if r[0] == 'ok' else r[1]}, expected {p!r} (final group of {n} bytes ends in digit {chr(33 + d)!r})")
+    st.sample({"family": "a85tail", "group_bytes": n, "last_digits": len(digits), "example": RF.a85_encode(table[(n, digits[-1])])})
+
+
 def run_shard(shard, tier, st):
+    try:
+        _run_shard(shard, tier, st)
+    except ShardStop:
+        st.caps.append(f"shard stopped after {VIOLATION_CAP} violations (failing tree: remaining cases of the shard not executed)")
+
+
+def _run_shard(shard, tier, st):
     fam = shard[0]
+    if fam == "history":
+        return run_history(shard, tier, st)
+    if fam == "a85tail":
+        return run_a85tail(shard, tier, st)
     if fam == "direct":
         run_direct(shard, tier, st)
     elif fam == "chain":
@@ -991,18 +1273,25 @@ def run_shard(shard, tier, st):
 
 
 # --------------------------------------------------------------------------- replay
+def _exec_case(case):
+    fam = case["family"]
+    if fam == "direct":
+        return impl_decode(case["filter"], case["encoded"], case.get("options") or {})
+    if fam == "stage":
+        return impl_stage(case["filter"], case["encoded"], case.get("parms"))
+    if fam == "png-direct":
+        return guarded(apply_png_predictor, 15, case["colors"], case["columns"], case["bits"], case["encoded"])
+    if fam == "tiff-direct":
+        return guarded(apply_tiff_predictor, case["colors"], case["columns"], 8, case["encoded"])
+    return read_streams(case["doc"], [case["objnum"]], case.get("bufsiz", 4096))[0]
+
+
 def replay(case):
     sig = case["signature"]
     p = case["payload"]
-    fam = case["family"]
-    if fam == "direct":
-        r = impl_decode(case["filter"], case["encoded"], case.get("options") or {})
-    elif fam == "png-direct":
-        r = guarded(apply_png_predictor, 15, case["colors"], case["columns"], case["bits"], case["encoded"])
-    elif fam == "tiff-direct":
-        r = guarded(apply_tiff_predictor, case["colors"], case["columns"], 8, case["encoded"])
-    else:
-        r = read_streams(case["doc"], [case["objnum"]], case.get("bufsiz", 4096))[0]
+    for pre in case.get("prelude") or []:
+        _exec_case(pre)  # what the process had decoded before (state carried over between decoder calls)
+    r = _exec_case(case)
     if r != ("ok", p):
         return [{"signature": sig, "expected": repr(("ok", p))[:1500], "observed": repr(r)[:1500]}]
     return []
